@@ -109,12 +109,19 @@ fn dispatch<S: Sim>(sim: S, cmd: &str, args: &Args) -> Result<i32, String> {
             let mut i = 0;
             while picked < wanted && i < 10_000 {
                 let scenario = sim.generate(rng::run_seed(seed, i));
-                let json = serde_json::to_value(&scenario).unwrap();
+                let mut json = serde_json::to_value(&scenario).unwrap();
                 let ops = json["ops"].as_array().map(|a| a.len()).unwrap_or(3);
                 i += 1;
                 if ops < 3 || ops > 10 {
                     continue;
                 }
+                // Without the hook the hash plans are only labels (every map instance takes real
+                // RandomState keys, which the Miri seed decides), so one pass over the operations is
+                // enough; interpretation is slow.
+                if let Some(plans) = json["hash_plans"].as_array_mut() {
+                    plans.truncate(1);
+                }
+                let scenario: S::Scenario = serde_json::from_value(json.clone()).map_err(|e| e.to_string())?;
                 picked += 1;
                 if only.is_some_and(|o| o != i - 1) {
                     continue;
